@@ -141,6 +141,28 @@ func init() {
 	})
 }
 
+// Family / Setup / Families: the deposit-and-withdrawal alphabets are also explored by C01 under the supply oracle.
+type Family struct {
+	Name  string
+	Alpha []ops.Op
+	Bases []hx.Base
+}
+
+// Setup applies the process-global configuration the families rely on (shrunk lock periods, spork and bridge operations).
+func Setup() {
+	shrinkLocks()
+	initHtlcOps()
+	initBridgeOps()
+}
+
+func Families(thorough bool) []Family {
+	var out []Family
+	for _, f := range families(thorough) {
+		out = append(out, Family{f.name, f.alpha, f.bases})
+	}
+	return out
+}
+
 type family struct {
 	name  string
 	alpha []ops.Op
